@@ -341,6 +341,8 @@ class BaseNestedSampler(ABC):
             seconds=sampler._previous_likelihood_evaluation_time
         )
         sampler.model = model
+        # Time spent before the checkpoint is already in `sampling_time`
+        sampler.sampling_start_time = datetime.datetime.now()
         sampler.resumed = True
         sampler.checkpoint_callback = checkpoint_callback
         return sampler
